@@ -89,10 +89,10 @@ type Gor struct {
 func (g *Gor) SetOp(v int) { g.opVal = v }
 
 type parked struct {
-	g    *Gor
-	desc string
-	ch   chan bool // true = killed
-	prio int
+	g          *Gor
+	desc       string
+	ch         chan bool // true = killed
+	prio       int
 	stallUntil time.Time
 }
 
@@ -109,17 +109,20 @@ type Sim struct {
 	Sched  Sched
 	Epoch0 time.Time
 
-	gors   map[int64]*Gor
-	parked map[string]*parked
-	wake   chan struct{}
-	abort  chan struct{}
+	gors    map[int64]*Gor
+	parked  map[string]*parked
+	wake    chan struct{}
+	abort   chan struct{}
 	aborted bool
-	epoch  int
+	epoch   int
 
 	seq   uint64
 	Steps uint64
 	Log   []Event
-	hash  interface{ Write([]byte) (int, error); Sum([]byte) []byte }
+	hash  interface {
+		Write([]byte) (int, error)
+		Sum([]byte) []byte
+	}
 
 	last      string // lineage root of the last granted goroutine
 	lastID    string
@@ -129,9 +132,9 @@ type Sim struct {
 	Hung      bool
 	KeepLog   bool
 
-	sleepers int
-	sleepSeq   uint64
-	sleepUntil map[uint64]time.Time
+	sleepers             int
+	sleepSeq             uint64
+	sleepUntil           map[uint64]time.Time
 	barrier, barrierWant atomic.Int32
 
 	// Pair mode (race detection): release two at once.
@@ -616,6 +619,7 @@ func (s *Sim) Run(finished func() bool, drain time.Duration) {
 			delete(s.parked, ids[j])
 		}
 		s.Steps++
+		Beat.Add(1)
 		s.last, s.lastID = lineageRoot(p.g.ID), p.g.ID
 		s.mu.Unlock()
 		if s.Pair {
@@ -678,3 +682,7 @@ func BubbleGoroutines() []string {
 	sort.Strings(out)
 	return out
 }
+
+// Beat counts scheduling steps of all simulations of this process. A watchdog outside the bubble (real
+// clock) uses it to tell a goroutine that computes forever without reaching a seam from progress.
+var Beat atomic.Uint64
